@@ -17,7 +17,7 @@ pub const CHECK: Check = Check {
     id: "C12",
     run,
     case_fn,
-    rule: "cases = (argument-safe test-case list, any CLI flag subset incl. -c and --with-surrogates, thresholds) x channel in {arguments, -f file, '-' with stdin, -f - with the file name on stdin} x {LF, CRLF} x {final newline or not}, flags spelled short or long in shuffled order, always before the test cases as the usage line `grex [OPTIONS] {INPUT...|--file <FILE>}` prescribes (INPUT allows hyphen values, so anything after the first test case is a test case). The grex binary is rebuilt from /repo's working tree (release, hooks off). Oracle: stdout = in-process build() + newline, exit 0, empty stderr; RegExpBuilder::from_file(path) builds the same as from(lines). Error inputs (empty file, missing file, non-UTF-8 file, non-UTF-8 stdin, empty stdin, zero thresholds): exit status non-zero and not 101, no 'panicked at', empty stdout, a one-line message (clap's own usage errors: first line starts with 'error:'); from_file on an empty file panics like from(&[]). Safety restrictions by construction: no NUL in arguments, no CR/LF inside a line-based test case, a trailing empty test case needs the final newline. Non-trivial = at least 2 flags and 2 test cases, or a non-argument channel, or an error input. Distinct = hash of (test cases, settings, channel).",
+    rule: "cases = (argument-safe test-case list, any CLI flag subset incl. -c and --with-surrogates, thresholds) x channel in {arguments, -f file, '-' with stdin, -f - with the file name on stdin} x {LF, CRLF} x {final newline or not}, flags spelled short or long in shuffled order, always before the test cases as the usage line `grex [OPTIONS] {INPUT...|--file <FILE>}` prescribes (INPUT allows hyphen values, so anything after the first test case is a test case). The grex binary is rebuilt from /repo's working tree (release, hooks off). Oracle: stdout = in-process build() + newline, exit 0, empty stderr; RegExpBuilder::from_file(path) builds the same as from(lines). Error inputs (empty file, missing file, non-UTF-8 file, non-UTF-8 stdin, empty stdin, zero thresholds): exit status non-zero and not 101, no 'panicked at', empty stdout, a one-line message (clap's own usage errors: first line starts with 'error:'); from_file on an empty file panics like from(&[]). Safety restrictions by construction: no NUL in arguments, no LF inside and no CR at the end of a line-based test case, a trailing empty test case needs the final newline. Non-trivial = at least 2 flags and 2 test cases, or a non-argument channel, or an error input. Distinct = hash of (test cases, settings, channel).",
     assumptions: &["the kernel passes argv unchanged; stdin of every child is a pipe or /dev/null, never a terminal"],
 };
 
@@ -196,7 +196,14 @@ pub fn case_fn(_sub: &str, case: &Case, stats: &mut Stats) -> Result<(), String>
     let mut tcs: Vec<String> = case.tcs.clone();
     let mut adjusted = false;
     for t in tcs.iter_mut() {
-        let clean: String = if channel == "args" { t.chars().filter(|&c| c != '\0').collect() } else { t.chars().filter(|&c| c != '\n' && c != '\r').collect() };
+        let clean: String = if channel == "args" {
+            t.chars().filter(|&c| c != '\0').collect()
+        } else {
+            // a line cannot contain LF, and a trailing CR would be read as part of a CRLF ending;
+            // a CR in the middle of a line is ordinary text for `str::lines` and is kept
+            let no_lf: String = t.chars().filter(|&c| c != '\n').collect();
+            no_lf.trim_end_matches('\r').to_string()
+        };
         if clean != *t {
             adjusted = true;
             *t = clean;
